@@ -18,6 +18,7 @@ func c07Truth(kind string) bool {
 	case "nil", "bool_f", "str_empty", "html_empty", "nilp":
 		return false
 	}
+	// named_string holds "ns": truthy like everything else
 	return true
 }
 
@@ -135,6 +136,7 @@ func c07Run(b *core.B) {
 							// build the chain
 							var sb strings.Builder
 							conds := make([]string, n)
+							recorded := make([]bool, n)
 							first := -1
 							for i := 0; i < n; i++ {
 								truth := mask>>i&1 == 1
@@ -145,6 +147,12 @@ func c07Run(b *core.B) {
 									x = pick(r, c07Falsy)
 								}
 								conds[i] = fmt.Sprintf("val(\"c%d\", %s)", i+1, x)
+								recorded[i] = true
+								if !truth && r.Chance(1, 5) {
+									// a bare unknown identifier is falsy and must not end the chain
+									conds[i] = pick(r, []string{"unknownIdent", "unknownIdent.Field", "nilvar"})
+									recorded[i] = false
+								}
 								if truth && first < 0 {
 									first = i
 								}
@@ -215,7 +223,9 @@ func c07Run(b *core.B) {
 							wantTrace := []string{}
 							for t := 0; t < w.times; t++ {
 								for i := 0; i < ntrace; i++ {
-									wantTrace = append(wantTrace, fmt.Sprintf("c%d", i+1))
+									if recorded[i] {
+										wantTrace = append(wantTrace, fmt.Sprintf("c%d", i+1))
+									}
 								}
 							}
 							cls := fmt.Sprintf("%s|n=%d", w.name, n)
